@@ -148,7 +148,12 @@ Definition spec_T (ς : sstate) (t : nat) (axes : list Z) : option (option sstat
     let '(nsh, cells) := spec_permute x p in
     (* a permutation that leaves the array as it is (identity, or all axes of length one)
        is not a pending transpose *)
-    if list_eqb nsh (s_shape x) && list_eqb (map Z.of_nat cells) (map Z.of_nat (s_cells x)) then Some (Some ς) else
+    if list_eqb nsh (s_shape x) && list_eqb (map Z.of_nat cells) (map Z.of_nat (s_cells x)) then
+      (* ... but with a transpose already pending it is open which of the two a later undo
+         takes back *)
+      (if Nat.eqb (s_pending x) 0 then Some (Some ς)
+       else Some (Some (sset ς t (mkSten (s_shape x) (s_cells x) (s_undo x) (S (s_pending x)) (s_view x) (s_cm x)))))
+    else
     (* transposing back to the tensor the pending transpose came from leaves nothing pending *)
     match s_undo x with
     | Some (sh0, cells0) =>
@@ -222,7 +227,7 @@ Definition spec_reshape (ς : sstate) (t : nat) (dims : list Z) (refused : bool)
   | Some x =>
     if negb (size (s_shape x) =? size dims) then Some None
     else if negb (pos_shapeb dims) then None
-    else if refused && s_view x then Some None
+    else if refused then Some None      (* a refusal for equal sizes is tolerated (non-contiguous storage) *)
     else
       let cells' :=
         if s_cm x then
